@@ -43,12 +43,12 @@ const (
 type ImmKind int
 
 const (
-	ImmNone ImmKind = iota
-	ImmMem          // memarg; Width = access width in bytes
-	ImmMemLane      // memarg + lane; Width bytes, Lanes lanes
-	ImmLane         // lane index < Lanes
-	ImmShuffle      // 16 lane indices < 32
-	ImmAtomic       // memarg with align == log2(Width) exactly
+	ImmNone    ImmKind = iota
+	ImmMem             // memarg; Width = access width in bytes
+	ImmMemLane         // memarg + lane; Width bytes, Lanes lanes
+	ImmLane            // lane index < Lanes
+	ImmShuffle         // 16 lane indices < 32
+	ImmAtomic          // memarg with align == log2(Width) exactly
 )
 
 // Op describes one table-driven instruction.
@@ -97,22 +97,23 @@ type TableInfo struct {
 
 // Module is a generated module.
 type Module struct {
-	Bytes     []byte
-	Funcs     []FuncInfo
-	Globals   []GlobalInfo
-	Tables    []TableInfo
-	HasMemory bool
-	MemMin    uint32
-	MemMax    int64 // -1 = none
-	MemShared bool
-	MemImport bool
-	FuelGlob  string // export name of the fuel global ("" if fuel disabled)
-	Start     int    // function index of the start function, -1 if none
-	Text      []string
-	Features  Feature
-	NumData   int
-	NumElem   int
-	Stats     map[string]int // instruction-class histogram (generator health)
+	Bytes      []byte
+	Funcs      []FuncInfo
+	Globals    []GlobalInfo
+	Tables     []TableInfo
+	HasMemory  bool
+	MemMin     uint32
+	MemMax     int64 // -1 = none
+	MemShared  bool
+	MemImport  bool
+	FuelGlob   string // export name of the fuel global ("" if fuel disabled)
+	HostModule string // module name under which the host imports are expected
+	Start      int    // function index of the start function, -1 if none
+	Text       []string
+	Features   Feature
+	NumData    int
+	NumElem    int
+	Stats      map[string]int // instruction-class histogram (generator health)
 }
 
 // Exports returns the exported functions.
